@@ -241,34 +241,46 @@ def check(ctx, rep):
         rep.missing('R04.a', 'crux_core / crux_time facts')
         return
     # R04.a
+    from rules.props import prims as _prims
+    USER = ['core::ops::function::Fn::call', 'core::ops::function::FnMut::call_mut', 'core::ops::function::FnOnce::call_once']
     for name, own, other in (('map_effect', 'Effect', 'Event'), ('map_event', 'Event', 'Effect')):
-        fs = [f for f in core.built if f.kind == 'Closure' and (f.root or '').endswith('Command::<Effect, Event>::' + name)
-              and c01.command_output_matches(f)]
+        roots = [r for r in core.built if r.kind == 'AssocFn' and r.name == name and path_matches(r.assoc.get('self_adt'), 'crux_core::command::Command')]
+        fs = [g for r in roots for g in core.closures_of(r) if c01.command_output_matches(g)] if len(roots) == 1 else []
         if len(fs) != 1:
             rep.missing('R04.a', 'the CommandOutput match inside Command::%s' % name)
             continue
-        f = fs[0]
+        root, f = roots[0], fs[0]
         scrut = c01.command_output_matches(f)[0]
-        user_calls = [(bb, t) for bb, t in f.calls('core::ops::function::Fn::call', 'core::ops::function::FnMut::call_mut',
-                                                   'core::ops::function::FnOnce::call_once')]
-        own_ok = False
-        if len(user_calls) == 1:
-            bb, t = user_calls[0]
-            arg_from_own = False
-            for o in origins(f, t['args'][1]):
-                if o.kind == 'agg' and o.stmt['rv'].get('ak') == 'tuple':
-                    arg_from_own = c01._moves_from(f, o.stmt['rv']['ops'][0], scrut, own)
-            rewrapped = any(s['rv']['variant'] == own and any(o.kind == 'call' and o.bb == bb for o in origins(f, s['rv']['ops'][0]))
-                            for b2, i2, s in f.stmts('assign') if s['rv']['k'] == 'agg' and
-                            path_matches(s['rv'].get('adt'), 'crux_core::command::stream::CommandOutput'))
-            own_ok = arg_from_own and rewrapped and not f.in_cycle(bb)
-        rep.expect('R04.a', own_ok, '%s|%s-arm' % (name, own), 'map is called once with the %s payload and its result re-wrapped as %s' % (own, own),
-                   'Command::%s: the %s arm does not call the user function exactly once on the payload and re-wrap the result' % (name, own))
-        untouched = any(s['rv']['variant'] == other and c01._moves_from(f, s['rv']['ops'][0], scrut, other)
-                        for b2, i2, s in f.stmts('assign') if s['rv']['k'] == 'agg' and
-                        path_matches(s['rv'].get('adt'), 'crux_core::command::stream::CommandOutput'))
-        rep.expect('R04.a', untouched, '%s|%s-arm' % (name, other), 'the %s payload is re-wrapped untouched' % other,
-                   'Command::%s: the %s arm no longer passes its payload through untouched' % (name, other))
+        aggs = [s_ for b2, i2, s_ in f.stmts('assign') if s_['rv']['k'] == 'agg' and path_matches(s_['rv'].get('adt'), 'crux_core::command::stream::CommandOutput')]
+
+        def arm(variant):
+            """what becomes of the payload of this arm: 'untouched', 'user' (the function given to map_effect / map_event, once, result
+            re-wrapped in the same variant), 'identity' (passed through core::convert::identity and re-wrapped) or None"""
+            if any(s_['rv']['variant'] == variant and c01._moves_from(f, s_['rv']['ops'][0], scrut, variant) for s_ in aggs):
+                return 'untouched'
+            for bb, t in f.calls(*USER):
+                fed = False
+                for o in origins(f, t['args'][1]):
+                    if o.kind == 'agg' and o.stmt['rv'].get('ak') == 'tuple':
+                        fed = c01._moves_from(f, o.stmt['rv']['ops'][0], scrut, variant)
+                if not fed:
+                    continue
+                rewrapped = any(s_['rv']['variant'] == variant and any(o.kind == 'call' and o.bb == bb for o in origins(f, s_['rv']['ops'][0])) for s_ in aggs)
+                if not rewrapped or f.in_cycle(bb):
+                    return None
+                # which function is called: followed through the captures into map_effect / map_event itself
+                tr = _prims.trace_to_root(core, f, t['args'][0], root)
+                if tr and all(h is root and o.kind == 'arg' and o.n >= 2 for h, o in tr):
+                    return 'user'
+                if tr and all(o.kind == 'const' and norm(getattr(o, 'fn', None) or '') == 'core::convert::identity' for h, o in tr):
+                    return 'identity'
+                return None
+            return None
+        got_own, got_other = arm(own), arm(other)
+        rep.expect('R04.a', got_own == 'user', '%s|%s-arm' % (name, own), 'map is called once with the %s payload and its result re-wrapped as %s' % (own, own),
+                   'Command::%s: the %s arm does not call the user function exactly once on the payload and re-wrap the result (%s)' % (name, own, got_own))
+        rep.expect('R04.a', got_other in ('untouched', 'identity'), '%s|%s-arm' % (name, other), 'the %s payload is re-wrapped %s' % (other, got_other),
+                   'Command::%s: the %s arm no longer passes its payload through untouched (%s)' % (name, other, got_other))
 
     # R04.b / R04.c
     def host_sites(fn_name):
